@@ -237,3 +237,34 @@ Theorem queue_bounded commit handlers progs v0 sched :
   system_ok commit handlers progs ->
   Forall (fun q => q <= g_ver (run sched (init progs v0))) (g_queue (run sched (init progs v0))).
 Proof. intros H. apply inv_le, run_inv, init_inv. eapply system_ok_shapes; eassumption. Qed.
+
+(* ---------------------------------------------------------------- several commit programs (one per transaction kind)
+   and several kinds of readers (Get handlers, the periodic collector) *)
+Definition system_ok_all (commits readers : list (list act)) (progs : list (list act)) : Prop :=
+  forallb (fun p => prog_eqb p writer_prog) commits = true /\
+  forallb (fun p => prog_eqb p reader_prog) readers = true /\
+  Forall (fun p => In p commits \/ In p readers) progs.
+
+Lemma system_ok_all_shapes commits readers progs :
+  system_ok_all commits readers progs -> Forall (fun p => p = writer_prog \/ p = reader_prog) progs.
+Proof.
+  intros (Hc & Hh & Hp). rewrite forallb_forall in Hc, Hh.
+  eapply Forall_impl; [|exact Hp]. intros p [Hi|Hi]; [left|right]; now apply prog_eqb_eq; auto.
+Qed.
+
+Theorem order_all_kinds commits readers progs v0 sched :
+  system_ok_all commits readers progs -> sorted_lt (g_queue (run sched (init progs v0))) = true.
+Proof. intros H. apply inv_sorted, run_inv, init_inv. eapply system_ok_all_shapes; eassumption. Qed.
+
+Theorem snapshot_all_kinds commits readers progs v0 sched :
+  system_ok_all commits readers progs -> responses_consistent (run sched (init progs v0)) = true.
+Proof. intros H. apply inv_done, run_inv, init_inv. eapply system_ok_all_shapes; eassumption. Qed.
+
+Theorem queue_bounded_all_kinds commits readers progs v0 sched :
+  system_ok_all commits readers progs ->
+  Forall (fun q => q <= g_ver (run sched (init progs v0))) (g_queue (run sched (init progs v0))).
+Proof. intros H. apply inv_le, run_inv, init_inv. eapply system_ok_all_shapes; eassumption. Qed.
+
+Lemma forallb_app_true {A} (f : A -> bool) l1 l2 :
+  forallb f l1 = true -> forallb f l2 = true -> forallb f (l1 ++ l2) = true.
+Proof. intros H1 H2. rewrite forallb_app, H1, H2. reflexivity. Qed.
